@@ -17,3 +17,16 @@ fn q_value_as_i64_roundtrip() {
     let r = value_as_i64(&Value::Float(f));
     if let Some(i) = r { assert!(i as f64 == f); }
 }
+
+#[kani::proof]
+fn q_mul_int_exact_or_float() {
+    let a: i64 = kani::any(); let b: i64 = kani::any();
+    let r = numeric_binop(&Value::Int(a), &Value::Int(b), |l, r| l * r, |l, r| l * r);
+    let ok = match (&r, a.checked_mul(b)) {
+        (Value::Int(v), Some(e)) => *v == e,
+        (Value::Float(_), None) => true,
+        _ => false,
+    };
+    std::mem::forget(r);
+    assert!(ok);
+}
